@@ -9,11 +9,6 @@ package procbuilder
 
 //@ props C09
 
-//@ func (vm *VM) AddDeferredInstruction(diName string, di DeferredInstruction) error
-//@   assigns vm.DeferredInstructions[*]
-//@   reads vm.DeferredInstructions, vm.DeferredInstructions[*]
-//@   frameonly
-
 //@ exclude T2r.Simulate: emulator opcode: sends a command on the VM's own CmdChan (channel operations are outside the verifiable subset)
 //@ exclude U2r.Simulate: emulator opcode: sends a command on the VM's own CmdChan (channel operations are outside the verifiable subset)
 //@ exclude K2r.Simulate: emulator opcode: sends a command on the VM's own CmdChan (channel operations are outside the verifiable subset)
@@ -78,18 +73,6 @@ package procbuilder
 //@           vm.InputsRecv[*], vm.OutputsRecv[*], vm.Extra_states[*]
 //@   reads vm.*, vm.Registers[*], vm.Memory[*], vm.Inputs[*], vm.Outputs[*], vm.InputsValid[*], vm.OutputsValid[*],
 //@         vm.InputsRecv[*], vm.OutputsRecv[*], vm.Extra_states[*], vm.Mach.*
-//@   frameonly
-
-//@ func (vm *VM) waitRecvI2rw(inp int) bool
-//@   requires vm != nil
-//@   assigns vm.InputsRecv[*]
-//@   reads vm.InputsValid, vm.InputsValid[*], vm.InputsRecv
-//@   frameonly
-
-//@ func (vm *VM) waitRecvSicv3(inp int) bool
-//@   requires vm != nil
-//@   assigns vm.InputsRecv[*]
-//@   reads vm.InputsValid, vm.InputsValid[*], vm.InputsRecv
 //@   frameonly
 
 //@ func (vm *VM) ExecuteDeferredInstructions() error
